@@ -7,6 +7,7 @@ import (
 	"fmt"
 	"os"
 	"os/signal"
+	"runtime"
 	"sort"
 	"strings"
 	"syscall"
@@ -104,19 +105,19 @@ type Env struct {
 	Sched *sched.Sched
 	Tape  *tape.Tape // schedule tape
 
-	Violations []Violation
-	Probes     map[string]int // "rare branch reached" counters
-	Faults     map[string]int // injected faults that actually fired
-	Mode       string         // "" or "acct": in acct mode only rules prefixed acct- are recorded (C13 rides on other worlds)
-	AcctResp   map[string]int // acct mode: "METHOD code" -> complete responses parsed by scripted clients
-	AcctInexact bool          // acct mode: some client gave up mid-exchange, so only inequalities hold
-	Debug      bool           // replay / trace mode: worlds may record wire bytes into Notes
-	NonTrivial bool           // set by the world when the run exercised the property meaningfully
-	ShapeExtra string         // appended to the shape key (e.g. fault kinds fired)
-	Notes      []string
-	cleanup    []func()
-	endNanos   int64
-	ended      bool
+	Violations  []Violation
+	Probes      map[string]int // "rare branch reached" counters
+	Faults      map[string]int // injected faults that actually fired
+	Mode        string         // "" or "acct": in acct mode only rules prefixed acct- are recorded (C13 rides on other worlds)
+	AcctResp    map[string]int // acct mode: "METHOD code" -> complete responses parsed by scripted clients
+	AcctInexact bool           // acct mode: some client gave up mid-exchange, so only inequalities hold
+	Debug       bool           // replay / trace mode: worlds may record wire bytes into Notes
+	NonTrivial  bool           // set by the world when the run exercised the property meaningfully
+	ShapeExtra  string         // appended to the shape key (e.g. fault kinds fired)
+	Notes       []string
+	cleanup     []func()
+	endNanos    int64
+	ended       bool
 }
 
 func (e *Env) Fail(rule, feature, format string, args ...any) {
@@ -166,27 +167,28 @@ func (e *Env) Cleanup(f func()) { e.cleanup = append(e.cleanup, f) }
 
 // RunResult is one line of a worker's output.
 type RunResult struct {
-	World      string          `json:"world"`
-	Seed       uint64          `json:"seed"`
-	Violations []Violation     `json:"violations,omitempty"`
-	Deadlock   string          `json:"deadlock,omitempty"`
-	Panic      string          `json:"panic,omitempty"`
-	GenVals    []uint32        `json:"gen_vals,omitempty"`
-	SchedVals  []uint32        `json:"sched_vals,omitempty"`
-	TraceHash  string          `json:"trace_hash"`
-	KindHash   string          `json:"kind_hash"`
-	Steps      int             `json:"steps"`
-	SimNanos   int64           `json:"sim_ns"`
-	Probes     map[string]int  `json:"probes,omitempty"`
-	Faults     map[string]int  `json:"faults,omitempty"`
-	NetStats   simnet.Stats    `json:"net"`
-	Events     map[string]int  `json:"events,omitempty"`
-	Shape      string          `json:"shape"`
-	NonTrivial bool            `json:"nontrivial"`
-	Case       json.RawMessage `json:"case,omitempty"`
-	Trace      []string        `json:"trace,omitempty"`
-	Notes      []string        `json:"notes,omitempty"`
-	WallMicros int64           `json:"wall_us"`
+	World      string           `json:"world"`
+	Seed       uint64           `json:"seed"`
+	Violations []Violation      `json:"violations,omitempty"`
+	Deadlock   string           `json:"deadlock,omitempty"`
+	Panic      string           `json:"panic,omitempty"`
+	GenVals    []uint32         `json:"gen_vals,omitempty"`
+	SchedVals  []uint32         `json:"sched_vals,omitempty"`
+	TraceHash  string           `json:"trace_hash"`
+	KindHash   string           `json:"kind_hash"`
+	Steps      int              `json:"steps"`
+	SimNanos   int64            `json:"sim_ns"`
+	Probes     map[string]int   `json:"probes,omitempty"`
+	Faults     map[string]int   `json:"faults,omitempty"`
+	NetStats   simnet.Stats     `json:"net"`
+	Events     map[string]int   `json:"events,omitempty"`
+	Shape      string           `json:"shape"`
+	NonTrivial bool             `json:"nontrivial"`
+	Case       json.RawMessage  `json:"case,omitempty"`
+	Trace      []string         `json:"trace,omitempty"`
+	Notes      []string         `json:"notes,omitempty"`
+	WLogs      map[string][]int `json:"wlogs,omitempty"`
+	WallMicros int64            `json:"wall_us"`
 }
 
 type RunOpts struct {
@@ -195,10 +197,10 @@ type RunOpts struct {
 	GenVals   []uint32 // nil: PRNG from seed
 	SchedVals []uint32 // nil: PRNG from seed
 	// SchedPrefixThenPRNG: SchedVals is a prefix, then PRNG (used while shrinking the case only)
-	KeepTrace  bool
-	KeepCase   bool
-	KeepTapes  bool
-	Explicit   bool // tapes are explicit lists with zero tails
+	KeepTrace bool
+	KeepCase  bool
+	KeepTapes bool
+	Explicit  bool // tapes are explicit lists with zero tails
 }
 
 // RunOne executes one simulated run of world w.
@@ -267,11 +269,18 @@ func RunOne(t *testing.T, w *World, o RunOpts) *RunResult {
 			res.Events = env.Sched.EventCount
 			res.Trace = env.Sched.Trace
 			res.Notes = env.Notes
+			if o.KeepTrace {
+				res.WLogs = map[string][]int{}
+				for _, ep := range n.Endpoints() {
+					res.WLogs[ep.ID()] = ep.WLog
+				}
+			}
 		})
 	})
 	if len(res.Violations) > 0 || res.Deadlock != "" || res.Panic != "" || o.KeepTapes {
 		res.GenVals, res.SchedVals = gt.Recorded(), st.Recorded()
 	}
+	runtime.GC() // between runs, outside the bubble (GOGC=off while a run is in progress)
 	res.WallMicros = time.Since(t0).Microseconds()
 	return res
 }
